@@ -328,8 +328,54 @@ def r07f(run, S):
                   necessity="dependant properties are stale after the assignment", node=n.ast)
 
 
+def r07g(run):
+    """every declared non-property field gets its own accessors; Final fields are immutable"""
+    f = run.repo.func("utype.parser.cls", "ClassParser.assign_properties")
+    fa = analysis(f)
+    loops = [n for n in fa.cfg.nodes if n.kind == "iter" and "self.fields" in unparse(n.ast)]
+    sets = [(n, c) for n, c in fa.all_calls() if call_attr(c) == "setattr"]
+    run.check("R07g", f, "assign_properties installs a property per field", len(loops) == 1 and len(sets) >= 1,
+              construct="assign_properties shape", message="assign_properties has no loop over self.fields installing properties")
+    if len(loops) == 1 and sets:
+        lp = loops[0]
+        body_entry = [s for s, k in lp.succ if s.kind == "branch" and s.polarity][0]
+        # every path through an iteration reaches the setattr unless the field is a @property field
+        skips = [b for b in fa.cfg.nodes if b.kind == "branch" and not b.is_for and b.polarity
+                 and unparse(b.test) == "field.property"]
+        reach = fa.cfg.reach_from_succ(body_entry, kinds=(N,), avoid=[n for n, c in sets] + skips)
+        run.check("R07g", f, "the only fields skipped are @property fields", lp not in reach,
+                  construct="field skipped without accessors",
+                  message="assign_properties can skip a declared field (other than a @property field) without installing "
+                          "its getter/setter/deleter",
+                  necessity="a subclass re-declaring an inherited field keeps the base class accessor: assignments are "
+                            "validated against the base field's type and flags")
+        for n, c in sets:
+            ok = len(c.args) == 3 and unparse(c.args[0]) == "self.obj" and unparse(c.args[1]) == "field.attname"
+            run.check("R07g", f, "the property is installed on the parsed class under the field's attribute name", ok,
+                      construct="property installed elsewhere", message=f"`{unparse(c)[:70]}` does not install on "
+                      f"self.obj / field.attname", node=c)
+        for what in ("setter", "deleter", "getter"):
+            bound = [c for n, c in fa.all_calls() if call_attr(c) == "partial" and c.args and unparse(c.args[0]) == what]
+            ok = all(kwarg(c, "field") is not None and unparse(kwarg(c, "field")) == "field" for c in bound) and bool(bound)
+            run.check("R07g", f, f"the {what} is bound to the field of this iteration", ok,
+                      construct=f"{what} bound to another field", message=f"assign_properties binds the {what} without "
+                      f"field=field")
+    g = run.repo.cls("utype.parser.field", "ParserField").methods.get("immutable")
+    if g is None:
+        raise AnalysisError("ParserField.immutable not found")
+    ga = analysis(g)
+    ok = any(n.kind == "stmt" and isinstance(n.ast, ast.Return) and isinstance(n.ast.value, ast.Constant)
+             and n.ast.value.value is True and ("self.final", True) in _facts(ga, n) for n in ga.cfg.nodes)
+    run.check("R07g", g, "a Final field is immutable", ok, construct="Final not immutable",
+              message="ParserField.immutable no longer answers True for Final fields",
+              necessity="`x: Final[T] = Field(...)` can be reassigned and deleted after initialisation")
+    ok = any(n.kind == "stmt" and isinstance(n.ast, ast.Return) and "immutable" in unparse(n.ast.value) for n in ga.cfg.nodes)
+    run.check("R07g", g, "otherwise the declared Field(immutable=...) decides", ok, construct="immutable flag",
+              message="ParserField.immutable ignores the declared flag")
+
+
 def check(run):
-    run.rules_run += ["R07a", "R07b", "R07c", "R07d", "R07e", "R07f"]
+    run.rules_run += ["R07a", "R07b", "R07c", "R07d", "R07e", "R07f", "R07g"]
     run.explain("C07: (R07a) the dict subclass overrides every mutating method of dict; (R07b) every write to raw "
                 "storage (super().__setitem__, dict.update, __dict__[k]=v) stores the result of a parse call; (R07c) "
                 "every raw removal is dominated by the schema-immutable, field-immutable and is_required checks; "
@@ -345,3 +391,4 @@ def check(run):
     r07d(run, S)
     r07e(run, S)
     r07f(run, S)
+    r07g(run)
